@@ -32,7 +32,7 @@ CLAIMED = {
          "Decides structural necessary conditions of C02 for every tink.AEAD implementer: plaintext is released only under a passed authentication check (stdlib Open, constant-time comparison of a recomputed tag, or success of a function for which that holds); the verdict is never discarded; the whole output prefix is compared; no trailing input bytes are ignored; every loop-invariant slice/index on ciphertext-derived data (also in callees) is proved in bounds, so truncated/garbage inputs cannot panic there. It does not decide that the MAC/GHASH values are right.",
          "Trusted: go/ssa; stdlib Open contract; size fields non-negative (validated at construction). Block-loop indexing is outside the prover and listed.",
          "DESIGN.md §4 C02, §2 engines C/D"),
- "C03": ("as C02 for tink.Verifier, plus points-to identity of the signature bytes handed to the stdlib, equality-length guards, constant-folded curve-size table, legacy-suffix condition agreement, DER re-encode guard, PSS salt-length guard",
+ "C03": ("as C02 for tink.Verifier, plus points-to identity of the signature bytes handed to the stdlib, equality-length guards (directly or entailed from branch facts plus constructor-established field invariants), constant-folded curve-size table, legacy-suffix condition agreement, DER re-encode guard, PSS salt-length guard and salt provenance",
          "Decides structural necessary conditions of C03 for every tink.Verifier implementer and the legacy-suffix sites of signers: nil only under the stdlib's positive verdict; raw signature bytes (no re-padding) for RSA/Ed25519; Ed25519 and IEEE-P1363 lengths pinned by equality (P1363 to the key's own curve; table 64/96/132 folded); 0x00 suffix exactly under variant==Legacy on both sides; strict DER by re-encoding; PSS salt length cannot be the stdlib's 'auto' value (known finding: salt length 0).",
          "Trusted: go/ssa; stdlib verification calls implement their standards; curve names of crypto/elliptic.",
          "DESIGN.md §4 C03"),
@@ -44,9 +44,9 @@ CLAIMED = {
          "Decides the static clause of C20: every byte of every IV/nonce/salt passed to Seal/NewCTR/nonce-named parameters in producing functions lies in a region completely filled by a dominating CSPRNG fill and is not written in between; the wrappers pass whole buffers to crypto/rand and do not mask; every stdlib generator/signing reader is crypto/rand.Reader; streaming writers draw salt and nonce prefix per call; every encapsulate draws fresh randomness on every success path and keeps nothing in the shared KEM object; hedged PQ signing fills its whole randomness array; every key creator draws its material from the CSPRNG with the parameters' size. The distribution itself is crypto/rand's (assumed).",
          "Trusted: crypto/rand; go/ssa; the two named deterministic nonce derivations (HPKE computeNonce, streaming generateSegmentNonce) are exceptions whose random inputs are checked.",
          "DESIGN.md §4 C20, §2 engine F"),
- "C14": ("census of Handle allocation / constructor call sites; must-validate dominance; constant folding of validateKey over the enum product and of every strength validator at its boundaries; guard-shape obligations of Validate's loop",
+ "C14": ("census of Handle allocation / constructor call sites; must-validate dominance; constant folding of validateKey over the enum product and of every strength validator at its boundaries; Validate's loop folded as a finite automaton over abstract keys (primary ID? x status x duplicate ID?) from every reachable loop state, guard-shape rules as fallback",
          "Decides structural clauses of C14: handles are allocated only in newFromEntries, proto keysets become entries only after Validate()==nil; validateKey accepts exactly {TINK,LEGACY,RAW,CRUNCHY}x{ENABLED,DISABLED,DESTROYED} (every enum constant and an out-of-range probe folded), nil key data rejected; Validate rejects nil/empty keysets, repeated IDs (map fed on every iteration), non-ENABLED or second primaries and succeeds only with an ENABLED primary found; the strength validators reject exactly below the library minimums (AES {16,32}, RSA >=2048 & e=65537, ECDSA curve/hash table incl. every weaker combination, HKDF-PRF, HMAC-PRF, CMAC-PRF) and constructors pass through them. Run-time panic freedom of all parsers and behavioural self-consistency are not decided.",
-         "Trusted: go/ssa; constant propagation over pure validator functions; guard idioms of Validate.",
+         "Trusted: go/ssa; constant propagation over pure validator functions; the abstraction of Validate's loop state (flags, counters saturated at 2) and of the ID set by 'already seen'.",
          "DESIGN.md §4 C14"),
  "C09": ("dominance/order and value-identity rule for VerifiedJWT construction; constant folding of validateHeader over its 64-row truth table and of validateFieldPresence; normalised comparison guards of validateTimestamps; census of clock reads, base64 alphabets and kid encoders; type-level JWK export arms",
          "Decides structural clauses of the JWT accept decision: a VerifiedJWT exists only after signature/MAC verification of the content, header validation of that same content and Validator.Validate of that same RawJWT, in that order; validateHeader's decision equals the rule (alg equal, no crit, kid rules) on all 64 input combinations; the presence matrix on all 8; the three timestamp rejections have exactly the stated comparison direction and skew sign with 'now' sampled per call; skew <= 10 min; base64url only; every key-ID kid is base64url of the 4-byte big-endian ID on all three sides; JWK export handles only public types and filters by Enabled; the presence accessors of RawJWT decide presence, not content. JSON/base64 decoding and claim round trips are not decided.",
@@ -72,7 +72,7 @@ CLAIMED = {
          "Decides the constants, tables, comparators and guards of ML-DSA that known-answer tests cannot pin for every input (NOT the lattice arithmetic): q/d/zeta/inv256, all 256 zetas, the three parameter literals vs FIPS 204 Table 1, key/signature lengths 1312/2560/2420, 1952/4032/3309, 2592/4896/4627, sigDecode accepting exactly the signature length, HintBitUnpack's counter/index/padding guards, the verification norm bound and challenge comparison, the four signing rejection bounds, context length <= 255, and prefix||signature for every signer incl. the external-mu signer (a genuine defect there was found and fixed).",
          "Trusted: go/ssa; FIPS 204 values transcribed in checker/rules/c10.go.",
          "DESIGN.md §4 C10"),
- "C15": ("taint-style use census of the outputLength parameter; linear in-bounds proofs of every [:outputLength] slice (with hash.Hash.Sum/Size and constant-result-length knowledge); constant folding of the HKDF validator; phi/edge-fact rule for the default salt; digest-size tables",
+ "C15": ("taint-style use census of the outputLength parameter; linear in-bounds proofs of every [:outputLength] slice (with hash.Hash.Sum/Size and constant-result-length knowledge); constant folding of the HKDF output-length limits through ComputeHKDF; phi/edge-fact rule with folded length for the default salt; digest-size tables",
          "Decides structural clauses of C15 (NOT equality with HMAC/HKDF/CMAC values): outputLength influences only guards, slice bounds and read lengths in every ComputePRF (necessary condition of the prefix law); over-long requests fail rather than panic (slices proved in bounds from the maximum-length guards; KDF read errors tested); the HKDF helper accepts tag sizes 10..255*HashLen for the five hashes and substitutes exactly HashLen zero bytes for an empty salt; digest-size tables are standard. prf.Set pairing is decided under C05.",
          "Trusted: go/ssa; len(h.Sum(nil)) == h.Size(); x/crypto hkdf.",
          "DESIGN.md §4 C15"),
